@@ -481,7 +481,8 @@ Proof.
     obind (ensure_theta theta) (fun _ =>
     obind (rd_count neb (le_bytes (N.to_nat neb) n ++ packed)) (fun '(num_entries, bs) =>
       let packed_bytes := (num_entries / BLOCK_WIDTH) * w + ((num_entries mod BLOCK_WIDTH) * w + 7) / 8 in
-      if N.of_nat (length bs) <? packed_bytes then Err
+      if false && (negb (num_entries =? 0) || negb (theta =? MAX_THETA)) then Err
+      else if N.of_nat (length bs) <? packed_bytes then Err
       else
         obind (unpack_deltas (S (N.to_nat (num_entries / BLOCK_WIDTH))) w num_entries bs) (fun ds0 =>
         obind (undo_deltas 0 theta ds0) (fun entries =>
@@ -489,7 +490,7 @@ Proof.
         Ok (mkC entries theta sh true false)))))) = Ok c).
   { intros theta ->. unfold ensure_theta.
     destruct (N.eqb_spec (ce_theta c) 0); [lia|]. destruct (N.ltb_spec MAX_THETA (ce_theta c)); [lia|]. cbn [orb obind].
-    rewrite Hcount. cbn [obind]. cbv zeta. rewrite block_width.
+    rewrite Hcount. cbn [obind andb]. cbv zeta. rewrite block_width.
     assert (Hpl : N.of_nat (length packed) = n / 8 * w + (n mod 8 * w + 7) / 8).
     { rewrite Lp, packed_len_N, Hdl. fold n. rewrite N2Nat.id. reflexivity. }
     rewrite Hpl, N.ltb_irrefl.
@@ -599,14 +600,16 @@ Proof.
 Qed.
 
 Lemma unpack_deltas_ns : forall fuel w remaining bs, (1 <= w <= 63)%nat -> bytes_lt bs ->
+  (N.to_nat remaining / 8 < fuel)%nat ->
   unpack_deltas fuel (N.of_nat w) remaining bs <> Stuck.
 Proof.
-  induction fuel as [|fuel IH]; intros w remaining bs Hw Hb; cbn [unpack_deltas]; [discriminate|].
+  induction fuel as [|fuel IH]; intros w remaining bs Hw Hb Hf; cbn [unpack_deltas]; [lia|].
   rewrite block_width, Nat2N.id, !short_spec.
   destruct (N.leb_spec 8 remaining) as [Hblk|Hshort].
   - destruct (Nat.ltb_spec (length bs) w) as [|Hlen]; [discriminate|].
     rewrite unpack_block_correct; [|exact Hw|rewrite firstn_length; lia|apply Forall_firstn; exact Hb].
-    cbn [obind]. apply obind_ns; [apply IH; [exact Hw|apply Forall_skipn; exact Hb]|]. intros; discriminate.
+    cbn [obind]. apply obind_ns; [apply IH; [exact Hw|apply Forall_skipn; exact Hb|]|intros; discriminate].
+    replace (N.to_nat remaining) with (N.to_nat (remaining - 8) + 1 * 8)%nat in Hf by lia. rewrite Nat.div_add in Hf by lia. lia.
   - destruct (N.ltb_spec 0 remaining) as [Hpos|]; [|discriminate].
     destruct (_ <? _)%nat; [discriminate|].
     rewrite unpack_tail_correct; [discriminate|exact Hw|lia|apply Forall_firstn; exact Hb].
@@ -685,9 +688,10 @@ Proof.
   { destruct (1 <? pre); [destruct (rd_bytes _ _ _ _ Hb7 H8); assumption|inversion H8; subst; exact Hb7]. }
   apply obind_ns; [apply ensure_theta_ns|]. intros _ _.
   apply obind_ns; [apply rd_not_stuck|]. intros [cnt bs9] H9. destruct (rd_bytes _ _ _ _ Hb8 H9) as [Hb9 _].
+  destruct (_ && (_ || _)); [discriminate|].
   destruct (N.of_nat (length bs9) <? _); [discriminate|].
   assert (Hw : (1 <= N.to_nat eb <= 63)%nat) by lia.
-  apply obind_ns; [rewrite <- (N2Nat.id eb); apply unpack_deltas_ns; assumption|]. intros ds _.
+  apply obind_ns; [rewrite <- (N2Nat.id eb); apply unpack_deltas_ns; try assumption; rewrite block_width; lia|]. intros ds _.
   apply obind_ns; [apply undo_deltas_ns|]. intros es _.
   apply obind_ns; [destruct (flag_set flags _); [apply ensure_ordered_ns|discriminate]|]. intros; discriminate.
 Qed.
@@ -786,6 +790,7 @@ Proof.
   apply obind_ok in H as [u1 [Hth H]]. apply ensure_theta_ok in Hth.
   apply obind_ok in H as [[cnt b9] [R9 H]]. destruct (rd_bytes _ _ _ _ Hb8 R9) as [Hb9 _]. apply rd_ok_length in R9 as [L9 _].
   rewrite block_width in H.
+  destruct (_ && (_ || _)); [discriminate|].
   destruct (N.ltb_spec (N.of_nat (length b9)) (cnt / 8 * eb + (cnt mod 8 * eb + 7) / 8)) as [|Hpk]; [discriminate|].
   assert (Hw : (1 <= N.to_nat eb <= 63)%nat) by lia.
   apply obind_ok in H as [ds [Hds H]].
